@@ -166,7 +166,7 @@ pub fn run(env: &Env) -> Rec {
     }
     let reps = representatives(env);
     // (a) all class sequences, one representative per class, then random members
-    let max_len = if env.quick() { 4 } else { 5 };
+    let max_len = if env.quick() { 5 } else { 6 };
     let total = util::n_strings(23, max_len);
     let per = 4096usize;
     let ra = par(total.div_ceil(per), |c, rec| {
@@ -203,7 +203,7 @@ pub fn run(env: &Env) -> Rec {
     rec.merge(rb);
     rec.exhaustive("every code point assigned in Unicode 16.0.0 in 9 class-distinguishing templates");
     // (c) random labels over weighted classes, RTL heavy, and PVALID-only labels through enforce
-    let n = env.n(150_000, 5_000_000);
+    let n = env.n(1_500_000, 40_000_000);
     let per = 2000usize;
     let rc = par(n.div_ceil(per), |c, rec| {
         let mut rng = Rng::stream(env.seed, 0x09_8000 + c as u64);
@@ -232,6 +232,44 @@ pub fn run(env: &Env) -> Rec {
         }
     });
     rec.merge(rc);
+    // long labels: the deciding character at and around power-of-two byte offsets
+    let n_long = env.n(15_000, 500_000);
+    let per = 200usize;
+    let rd = par(n_long.div_ceil(per), |c, rec| {
+        let mut rng = Rng::stream(env.seed, 0x09_C000 + c as u64);
+        let p = env.pools();
+        super::hostile::drive(
+            &mut rng,
+            per,
+            4096,
+            |rng| {
+                let mut t = String::new();
+                for _ in 0..rng.range(1, 2) {
+                    let cls = *rng.pick(&[B_R, B_AL, B_AN, B_EN, B_NSM, B_L, B_ES, B_ON]);
+                    let pool = if !p.bidi_pvalid[cls as usize].is_empty() { &p.bidi_pvalid[cls as usize] } else { &p.bidi[cls as usize] };
+                    t.push(*rng.pick(pool));
+                }
+                t
+            },
+            |s| check(env, s, rec, true),
+        );
+        // the same around an RTL body: R x^n c
+        for _ in 0..20 {
+            let n = *rng.pick(&super::hostile::BOUNDARIES[..14]);
+            let mut s = String::new();
+            s.push(*rng.pick(&p.bidi_pvalid[B_R as usize]));
+            let f = *rng.pick(&p.bidi_pvalid[B_AL as usize]);
+            while s.len() + f.len_utf8() < n.saturating_sub(rng.below(4)) {
+                s.push(f);
+            }
+            let cls = *rng.pick(&[B_AN, B_EN, B_L, B_ES, B_NSM, B_R]);
+            s.push(*rng.pick(&p.bidi[cls as usize]));
+            let cls2 = *rng.pick(&[B_AN, B_EN, B_R, B_NSM]);
+            s.push(*rng.pick(&p.bidi[cls2 as usize]));
+            check(env, &s, rec, true);
+        }
+    });
+    rec.merge(rd);
     rec
 }
 
